@@ -132,7 +132,11 @@ Section Ps.
     Fixpoint ps_set_tail (es : list expr) (s : list value) : M (list value) :=
       match es with
       | [] => ret s
-      | EStarred x :: r => bind (ev x) (fun v => bind (to_list f v) (fun l => bind (set_add_all l s) (fun s' => ps_set_tail r s')))
+      | EStarred x :: r =>
+          (* set.update(iterable): every item is hashed as soon as the iterator hands it out *)
+          bind (ev x) (fun v => bind (open_cursor v) (fun c =>
+            bind (for_each f c (fun item => if hashable item then ret [item] else raise ExTypeError) []) (fun l =>
+            bind (set_add_all l s) (fun s' => ps_set_tail r s'))))
       | e :: r => bind (ev e) (fun v => bind (set_put v s) (fun s' => ps_set_tail r s'))
       end.
     Definition ps_set (es : list expr) : M value :=
